@@ -295,16 +295,62 @@ def check_pid_wrapper(chk, prog, sim):
         chk.discharge(key + ":wiring")
 
 
+def check_read_after_terminal_update(chk, prog, sim):
+    """O: 'the combined data its terminal CURRENTLY sees': a terminal may follow a getter, whose value only arrives in
+    Terminal::update (update_terminals); the wrappers must therefore read the terminal after updating it.  Decided with
+    Terminal's update and combined read kept opaque (logged effects) and comparing their order on every path."""
+    key = "O:terminal-read-after-update"
+    chk.obligation(key, "ActuatorWrapper / PIDWrapper read their terminal only after update_terminals()")
+    ok = True
+    sim.inline_filter = lambda f: not (is_adt(f.get("impl_self") or {}, "Terminal") and
+                                       ((f["name"] == "update" and (f.get("impl_trait") or "").endswith("Updatable")) or
+                                        (f["name"] == "get" and "TerminalData" in ty_str_list(f))))
+    try:
+        for wname in ("ActuatorWrapper", "PIDWrapper"):
+            fn = prog.find_fn(name="update", self_name=wname, trait="Updatable")
+            leaves, dh = run_wrapper(sim, prog, fn, [dict(state=True, cmd=True)], None)
+            nread = 0
+            for leaf in leaves:
+                chk.evaluated(1, nontrivial=(key, wname, repr(leaf.pc)))
+                if leaf.kind == "unsupported":
+                    chk.violation("analysis-incomplete", key + ":" + wname, "%s::update: %s" % (wname, leaf.info.get("msg")), fn=fn["pretty"])
+                    ok = False
+                    continue
+                evs = [(i, e[2].split("::")[-1]) for i, e in enumerate(leaf.effects) if e[0] == "call" and e[2].startswith("Terminal<")]
+                reads = [i for i, n in evs if n == "get"]
+                upds = [i for i, n in evs if n == "update"]
+                nread += len(reads)
+                if reads and (not upds or min(reads) < min(upds)):
+                    chk.violation("C20.O", "%s:%s" % (key, wname), "%s::update (%s) reads its terminal's combined data before update_terminals(): a value the terminal is following arrives one round late, "
+                                  "so the inner object is not handed what the terminal currently sees" % (wname, loc(fn["span"])), fn=fn["pretty"], file=loc(fn["span"]))
+                    ok = False
+                    break
+            if nread == 0:
+                chk.violation("floor", "C20.terminal-reads:" + wname, "%s::update never reads its terminal (rule would be vacuous)" % wname)
+                ok = False
+    finally:
+        sim.inline_filter = None
+    if ok:
+        chk.discharge(key)
+
+
+def ty_str_list(f):
+    from program import ty_str
+    return " ".join([ty_str(a) for a in (f.get("impl_trait_args") or [])] + [f.get("pretty", "")])
+
+
 def run(chk):
     prog = load_config("K1")
     chk.configs.append("K1")
     chk.rule("C20.A", "ActuatorWrapper::update effect sequence and error propagation")
     chk.rule("C20.G", "GetterStateDeviceWrapper::update effect sequence")
     chk.rule("C20.P", "PIDWrapper update order and wiring")
+    chk.rule("C20.O", "the wrappers read their terminal after update_terminals() on every path")
     sim = S.Sim(prog)
     check_actuator(chk, prog, sim)
     check_getter_wrapper(chk, prog, sim)
     check_pid_wrapper(chk, prog, sim)
+    check_read_after_terminal_update(chk, prog, sim)
     chk.assume("terminals do not follow getters (following = None)", "CommandPID::update is opaque inside PIDWrapper::update (its behaviour is C11's obligation)",
                "PIDWrapper wiring is checked by flow-insensitive intra-procedural provenance over new()")
     chk.extra["std_models"] = sorted(sim.stats["models_used"])
